@@ -59,6 +59,10 @@ def make_data(seed, model, lead, K, D, ds):
         # Mahalanobis distance is bounded by (class mass) / (its own weight), so the class must be large
         per = 1200
         N = K * per
+    if ds == 'long':
+        # a long recording: more frames than any internal block size; the sources move in the last quarter
+        per = 11192
+        N = K * per
     if ds == 'diffuse':
         # many frames of a weak directional source in diffuse noise plus a purely diffuse class: the maximum
         # likelihood concentrations are of order one although there are many channels (only visible for large N)
@@ -74,6 +78,18 @@ def make_data(seed, model, lead, K, D, ds):
     else:
         y, _ = A.clustered_data(seed, lead, K, per, D, 'c02', ds, model, complex_=cplx,
                                 noise={'clustered': 0.3, 'tight': 0.1, 'small': 0.3}.get(ds, 0.5))
+        if ds == 'long':
+            # overlapping classes drawn from random covariances; other covariances in the last quarter
+            r = A.rng(seed, 'c02long', model, K, D)
+            y = np.zeros(lead + (N, D), complex)
+            cut = (3 * N) // 4
+            for idx in np.ndindex(*lead):
+                for part, (lo, hi) in enumerate(((0, cut), (cut, N))):
+                    lab = r.integers(0, K, size=hi - lo)
+                    for k in range(K):
+                        Lk = np.linalg.cholesky(A.hpd(seed, D, 20.0, 'c02long', idx, part, k))
+                        sel = np.where(lab == k)[0] + lo
+                        y[idx][sel] = A.cnormal(r, (len(sel), D)) @ Lk.conj().T
         if ds == 'big_outlier':
             # interleave the classes so that no start is aligned with the true partition
             y = np.ascontiguousarray(y[..., np.argsort(np.arange(N) % per, kind='stable'), :])
@@ -158,7 +174,11 @@ def run_traj(key):
     integ = model in M.INTEGRATION
     lead = (F,) if (integ or F > 1) else ()
     data, N = make_data(seed, model, lead, K, D, ds)
-    init = A.soft_affiliation(seed, lead, K, N, 'c02start', start, floor=0.1 * (1 + start))
+    if start == 'raw':
+        # strictly positive, but the classes do not sum to one (independent soft masks)
+        init = A.rng(seed, 'c02rawstart', lead, K, N).uniform(0.1, 1.0, size=lead + (K, N))
+    else:
+        init = A.soft_affiliation(seed, lead, K, N, 'c02start', start, floor=0.1 * (1 + start))
     if salk == 'cross':
         # absolute saliency scale at which the class masses straddle 1e-10: the first third of the frames
         # carries three times the saliency of the rest, total masses around 2e-10 and 0.7e-10
@@ -287,7 +307,7 @@ def subchecks(tier, seed):
     n = 50 if thorough else 12
     datasets = ('clustered', 'unclustered', 'tight', 'outlier', 'small') if not thorough else \
         ('clustered', 'unclustered', 'tight', 'loose', 'outlier', 'small')
-    starts = (0, 1, 2)
+    starts = (0, 1, 2, 'raw')
 
     def cases():
         for fam, (model, fopts) in enumerate(FAMILIES):
@@ -309,6 +329,9 @@ def subchecks(tier, seed):
                                         for st in starts:
                                             if ds in ('outlier', 'small') and not thorough and (salk != 'none' or st):
                                                 continue
+                                            if st == 'raw' and (salk != 'none' or ds != 'clustered' or
+                                                                (not thorough and (K, D) != (2, 3))):
+                                                continue
                                             if not thorough:
                                                 # quick: all pairs of (family, tying) with every data set;
                                                 # remaining axes vary together (covering design)
@@ -321,7 +344,10 @@ def subchecks(tier, seed):
                                             yield (fam, wca, salk, eps, K, D, F, ds, st, n, seed)
     def big_cases():
         for fam, (model, fopts) in enumerate(FAMILIES):
-            if model != 'gmm':
+            if model == 'cacgmm' and fopts == dict(covariance_norm='eigenvalue', hermitize=True):
+                for st in (0, 1):
+                    yield (fam, (-1,), 'none', 'default', 2, 2, 1, 'long', st, 3, seed)
+            if model != 'gmm' or 'fixed_covariance' in fopts:
                 continue
             for F, wcas in ((1, ((-1,), -2)), (2, ((-1,), (-3,)))):
                 for wca in wcas:
